@@ -32,19 +32,22 @@ theorem run_snoc_getLast (w : World) (ops : List Op) (op : Op) :
 
 /-! ### the root context during the registrations -/
 
-/-- Context 1 exists, is open, is a root without open children, and has callback stack `tds`. -/
+/-- Context 1 exists, is open, is a root without open children, has callback stack `tds`, and is
+the current context of the host task 0. -/
 def RootOpen (w : World) (tds : List Cb) : Prop :=
-  ∃ x, w.ctx? 1 = some x ∧ x.state = .opened ∧ x.parent = none ∧ x.children = [] ∧ x.tds = tds
+  w.curOf 0 = some 1 ∧ ∃ x, w.ctx? 1 = some x ∧ x.state = .opened ∧ x.parent = none ∧ x.children = [] ∧ x.tds = tds
 
 theorem rootOpen_init : RootOpen (run World.empty [.new 0 1 none, .enter 0 1]).1 [] := by
-  exact ⟨{ freshCtx none none with state := .opened, token := some none }, rfl, rfl, rfl, rfl, rfl⟩
+  exact ⟨rfl, { freshCtx none none with state := .opened, token := some none }, rfl, rfl, rfl, rfl, rfl⟩
 
 theorem rootOpen_addTeardown (w : World) (tds : List Cb) (cb : Cb) (h : RootOpen w tds) :
     RootOpen (step w (.addTeardown 1 cb true)).1 (cb :: tds) := by
-  obtain ⟨x, hx, hs, hp, hc, ht⟩ := h
-  refine ⟨{ x with tds := cb :: x.tds }, ?_, hs, hp, hc, by rw [ht]⟩
-  simp only [step, onCtx, hx, hs, CState.usable]
-  exact ctx?_setCtx_same _ _ _
+  obtain ⟨hcur, x, hx, hs, hp, hc, ht⟩ := h
+  refine ⟨?_, { x with tds := cb :: x.tds }, ?_, hs, hp, hc, by rw [ht]⟩
+  · simp only [step, onCtx, hx, hs, CState.usable]
+    exact hcur
+  · simp only [step, onCtx, hx, hs, CState.usable]
+    exact ctx?_setCtx_same _ _ _
 
 theorem rootOpen_regs (regs : List RegSpec) (w : World) (tds : List Cb) (h : RootOpen w tds) :
     RootOpen (run w (regs.map fun r => Op.addTeardown 1 (regCb r) true)).1
@@ -97,17 +100,17 @@ theorem effStack_regs (be : BlockEnd) (regs : List RegSpec) :
 theorem runApp_trace (c : RunCase) :
     ∃ x : Ctx, ∃ excs : List Exc,
       (runApp c).1 =
-        (runTeardown 1 (blockEndOf c.ending) (c.regs.map regCb).reverse x).2.1 ++
+        (runTeardown 1 (some 1) (blockEndOf c.ending) (c.regs.map regCb).reverse x).2.1 ++
           [.closed, exitOutcome (blockEndOf c.ending) true [] excs] := by
-  obtain ⟨x, hx, hs, hp, hc, ht⟩ := rootOpen_runOps c
+  obtain ⟨hcur, x, hx, hs, hp, hc, ht⟩ := rootOpen_runOps c
   have h : (runApp c).1 =
-      (runTeardown 1 (blockEndOf c.ending) (c.regs.map regCb).reverse
+      (runTeardown 1 (some 1) (blockEndOf c.ending) (c.regs.map regCb).reverse
           { x with state := .closing, tds := [] }).2.1 ++
         [.closed, exitOutcome (blockEndOf c.ending) true []
-          (runTeardown 1 (blockEndOf c.ending) (c.regs.map regCb).reverse
+          (runTeardown 1 (some 1) (blockEndOf c.ending) (c.regs.map regCb).reverse
             { x with state := .closing, tds := [] }).2.2] := by
     unfold runApp runOps
-    rw [run_snoc_getLast, step_exit _ 0 1 _ x hx hs, ht, hp, hc, effStack_regs]
+    rw [run_snoc_getLast, step_exit _ 0 1 _ x hx hs, hcur, ht, hp, hc, effStack_regs]
     rfl
   exact ⟨_, _, h⟩
 
